@@ -585,6 +585,12 @@ def corr_basis_change(ctx, pend, cfg, g):
         for i in range(2):
             pend.add("convertVec", [d, n, Bq, d, n, obq, cl(pv[i])], lambda povm=povm, ob=ob, i=i: povm.convert_basis(ob)[i], "c",
                      f"{cfg.name}/Povm.convert_basis(->{oname})[{i}]")
+        for lab, mm in (("nonsymmetric", rand_c(g, (d, d))), ("unit", comp_ref(d, "row_major")[1])):
+            pend.add("vecOfDensityRaw", [d, n, obq, cl(mm)], lambda mm=mm, ob=ob: mb.calc_matrix_expansion_coefficient(mm, ob), "c",
+                     f"{cfg.name}/calc_matrix_expansion_coefficient(basis={oname})/{lab}")
+        cv = rand_c(g, n)
+        pend.add("densityLoop", [d, n, obq, cl(cv)], lambda cv=cv, ob=ob: mb.calc_mat_from_coefficient_basis(cv, ob), "c",
+                 f"{cfg.name}/calc_mat_from_coefficient_basis(basis={oname})/complex")
         if c.is_orthonormal_hermitian_0thprop_identity:
             hss2 = [g.standard_normal((n, n)) for _ in range(2)]
             mp = MProcess(c, [h.copy() for h in hss2], is_physicality_required=False)
@@ -641,6 +647,18 @@ def corr_kraus(ctx, pend, cfg, g, eps):
         pend.add("hsOfKraus", hd + [r, cl(np.array(ks)), eps], lambda ks=ks: G.to_hs_from_kraus_matrices(c, ks), "r",
                  f"{cfg.name}/to_hs_from_kraus_matrices/nonTP{r}")
     pend.add("hsOfKraus", hd + [0, "-", eps], lambda: G.to_hs_from_kraus_matrices(c, []), "r", f"{cfg.name}/to_hs_from_kraus_matrices/empty")
+    # duplicate implementations of Kraus -> HS outside gate.py: catalogue m-processes, unitary -> HS helpers
+    from quara.objects import mprocess_typical as MT, gate_typical as GT
+    for name in MT.get_mprocess_names_type1() + MT.get_mprocess_names_type2():
+        kset = MT.generate_mprocess_set_kraus_matrices_from_name(name)
+        if kset[0][0].shape[0] != d or not c.is_orthonormal_hermitian_0thprop_identity:
+            continue
+        for i, ks_i in enumerate(kset):
+            pend.add("hsOfKraus", hd + [len(ks_i), cl(np.array(ks_i)), eps], lambda name=name, i=i: MT.generate_mprocess_hss_from_name(name, c)[i], "r",
+                     f"{cfg.name}/generate_mprocess_hss_from_name({name})[{i}]")
+    for lab, u in (("S.RY", _S @ _RY), ("random", qobj.rand_unitary(g, d))) if d == 2 else (("random", qobj.rand_unitary(g, d)),):
+        pend.add("hsOfKraus", hd + [1, cl(np.array([u])), eps], lambda u=u: GT.calc_gate_mat_from_unitary_mat_with_hermitian_basis(u, c.basis()), "r",
+                 f"{cfg.name}/calc_gate_mat_from_unitary_mat_with_hermitian_basis/{lab}")
     # elements of different dtypes (real float64 / int64 next to complex128), both orders
     oq, _ = np.linalg.qr(g.standard_normal((d, d)))
     pm = np.eye(d, dtype=np.int64)[::-1].copy()
@@ -1033,6 +1051,12 @@ def chk_convert(cfg, other, hs, v):
     img2 = sum(x * b for x, b in zip(h2 @ v2, ob))
     need(dev(img2, img), "C02/convert_hs/same-operator", "the converted HS matrix acts differently on ρ")
     need(dev(call("C02/convert_hs", lambda: G.convert_hs(h2, other, c.basis())), hs), "C02/convert_hs/roundtrip", "there and back is not the identity")
+    # expansion helpers of matrix_basis.py on this (possibly non-Hermitian) basis, non-symmetric complex matrix
+    mm = rand_c(g, (cfg.d, cfg.d))
+    co = call("C02/matrix_basis.calc_matrix_expansion_coefficient", lambda: mb.calc_matrix_expansion_coefficient(mm, other))
+    need(dev(co, np.array([np.trace(b.conj().T @ mm) for b in ob])), "C02/matrix_basis.calc_matrix_expansion_coefficient/formula", "coefficients != tr(B_a^† M)")
+    need(dev(call("C02/matrix_basis.calc_mat_from_coefficient_basis", lambda: mb.calc_mat_from_coefficient_basis(co, other)), mm),
+         "C02/matrix_basis/roundtrip/matrix-coefficients-matrix", "calc_mat_from_coefficient_basis(calc_matrix_expansion_coefficient(M)) != M")
     # the object methods and the other storage of the same basis must give the same coefficients
     kind = "sparse" if isinstance(other, mb.SparseMatrixBasis) else "dense"
     twin = mb.MatrixBasis(list(ob)) if kind == "sparse" else sparse_stored(other)
@@ -1491,6 +1515,52 @@ def chk_sequence(cfg, seed):
     sections(gate_seq, gate_zero_seq, mp_seq, state_povm_seq)
 
 
+def chk_catalogue(cfg, name):
+    """duplicate implementations of Kraus -> HS: the catalogue's `generate_mprocess_hss_from_name` / `generate_mprocess_from_name` against
+    the catalogue's own Kraus operators (channel action, and gate.to_hs_from_kraus_matrices), and the Kraus operators recovered from the object"""
+    from quara.objects import mprocess_typical as MT
+    c, d = cfg.c, cfg.d
+    kset = call("C02/mprocess_typical.generate_mprocess_set_kraus_matrices_from_name", lambda: MT.generate_mprocess_set_kraus_matrices_from_name(name))
+    hss = call("C02/mprocess_typical.generate_mprocess_hss_from_name", lambda: MT.generate_mprocess_hss_from_name(name, c))
+    mp = call("C02/mprocess_typical.generate_mprocess_from_name", lambda: MT.generate_mprocess_from_name(c, name))
+    if not (len(kset) == len(hss) == len(mp.hss)):
+        raise Fail("C02/mprocess_typical/count", f"{name}: {len(kset)} Kraus sets, {len(hss)} HS matrices, {len(mp.hss)} in the object")
+
+    def one_outcome(i):
+        ks = [np.asarray(k, dtype=np.complex128) for k in kset[i]]
+        ref = hs_of_kraus_ref(cfg, ks)
+        need(dev(hss[i], ref), "C02/mprocess_typical.generate_mprocess_hss_from_name/kraus-formula", f"{name}[{i}]: HS != tr(B_a^† Σ K B_b K^†) of its own Kraus operators")
+        need(dev(mp.hss[i], ref), "C02/mprocess_typical.generate_mprocess_from_name/kraus-formula", f"{name}[{i}]: object's HS != tr(B_a^† Σ K B_b K^†)")
+        need(dev(call("C02/gate.to_hs_from_kraus_matrices", lambda: G.to_hs_from_kraus_matrices(c, ks)), hss[i]),
+             "C02/mprocess_typical.generate_mprocess_hss_from_name/vs-to_hs_from_kraus_matrices", f"{name}[{i}]: two implementations of Kraus -> HS disagree")
+        out = call("C02/MProcess.to_kraus_matrices", lambda: mp.to_kraus_matrices(i))
+        inv_in = sum(np.kron(k, k.conj()) for k in ks)
+        inv_out = sum((np.kron(k, k.conj()) for k in out), np.zeros_like(inv_in))
+        if dev(inv_out, inv_in) > 1e-8:
+            raise Fail("C02/mprocess_typical/object-kraus-vs-catalogue-kraus", f"{name}[{i}]: Σ K⊗conj(K) of to_kraus_matrices differs from the catalogue's Kraus operators by {dev(inv_out, inv_in):.3g}")
+
+    sections(*[lambda i=i: one_outcome(i) for i in range(len(kset))])
+
+
+def chk_unitary_hs(cfg, seed):
+    """gate_typical's unitary -> HS helpers (another Kraus -> HS implementation) on complex unitaries, every stored basis"""
+    from quara.objects import gate_typical as GT
+    g = np.random.default_rng(seed)
+    c, d = cfg.c, cfg.d
+    us = [qobj.rand_unitary(g, d)] + ([_S @ _RY, _H @ _S] if d == 2 else [])
+    for u in us:
+        ref = hs_of_kraus_ref(cfg, [u])
+        need(dev(call("C02/gate_typical.calc_gate_mat_from_unitary_mat", lambda: GT.calc_gate_mat_from_unitary_mat(u, c.basis())), ref),
+             "C02/gate_typical.calc_gate_mat_from_unitary_mat/formula", "HS != tr(B_a^† U B_b U^†)")
+        need(dev(call("C02/gate_typical.calc_gate_mat_from_unitary_mat_with_hermitian_basis", lambda: GT.calc_gate_mat_from_unitary_mat_with_hermitian_basis(u, c.basis())), ref),
+             "C02/gate_typical.calc_gate_mat_from_unitary_mat_with_hermitian_basis/formula", "HS != tr(B_a^† U B_b U^†)")
+        for oname, ob in other_bases(cfg)[:4]:
+            obd = dense_basis(ob)
+            refo = np.array([[np.trace(ba.conj().T @ u @ bb @ u.conj().T) for bb in obd] for ba in obd])
+            need(dev(call("C02/gate_typical.calc_gate_mat_from_unitary_mat", lambda: GT.calc_gate_mat_from_unitary_mat(u, ob)), refo),
+                 f"C02/gate_typical.calc_gate_mat_from_unitary_mat/formula(basis={oname.split('/')[0]})", "HS != tr(B_a^† U B_b U^†)")
+
+
 def chk_dtypes(cfg, seed):
     """input dtypes: lists whose elements have DIFFERENT dtypes (real float64 / int64 operators next to complex ones, in every
     order), integer-valued arrays of integer dtype; every conversion must give what it gives for the complex128 / float64 copy of
@@ -1549,7 +1619,7 @@ def chk_dtypes(cfg, seed):
     sections(*([lambda lab=lab, ks=ks: kraus(lab, ks) for lab, ks in lists.items()] + [others]))
 
 
-CHECKS = {"dtypes": chk_dtypes, "compform": chk_compform, "layout": chk_layout, "reject": chk_reject, "sequence": chk_sequence, "state": chk_state, "density": chk_density, "povm": chk_povm, "gate": chk_gate, "choi": chk_choi, "kraus": chk_kraus,
+CHECKS = {"catalogue": chk_catalogue, "unitary_hs": chk_unitary_hs, "dtypes": chk_dtypes, "compform": chk_compform, "layout": chk_layout, "reject": chk_reject, "sequence": chk_sequence, "state": chk_state, "density": chk_density, "povm": chk_povm, "gate": chk_gate, "choi": chk_choi, "kraus": chk_kraus,
           "notcp": chk_not_cp, "linear": chk_linear, "mprocess": chk_mprocess}
 
 
@@ -1703,6 +1773,17 @@ def oracle(ctx, volume=1):
             run_check(ctx, "sequence", cfg, (seed,), {"check": "sequence", "cfg": name, "seed": seed})
             ctx.case(("o-dtypes", name, seed))
             run_check(ctx, "dtypes", cfg, (seed,), {"check": "dtypes", "cfg": name, "seed": seed})
+            ctx.case(("o-unitary-hs", name, seed))
+            run_check(ctx, "unitary_hs", cfg, (seed,), {"check": "unitary_hs", "cfg": name, "seed": seed})
+    # catalogue m-processes (every name; the configuration is chosen by the dimension of its Kraus operators)
+    from quara.objects import mprocess_typical as MT
+    for mname in MT.get_mprocess_names_type1() + MT.get_mprocess_names_type2():
+        dd = MT.generate_mprocess_set_kraus_matrices_from_name(mname)[0][0].shape[0]
+        cname = {2: "qubit/pauli", 3: "qutrit/gellmann", 4: "2qubit/pauli"}.get(dd)
+        if cname is None:
+            continue
+        ctx.case(("o-catalogue", mname))
+        run_check(ctx, "catalogue", cfg_of(cname), (mname,), {"check": "catalogue", "cfg": cname, "name": mname})
 
 
 def search(ctx):
@@ -1719,7 +1800,11 @@ def replay(ctx, data):
             chk_povm_tensor([list(dec(f).real) for f in r["factors"]], tuple(r["names"]))
             print("property holds on this input now")
             return 0
-        if kind in ("layout", "reject", "sequence", "dtypes"):
+        if kind == "catalogue":
+            chk_catalogue(cfg, r["name"])
+            print("property holds on this input now")
+            return 0
+        if kind in ("layout", "reject", "sequence", "dtypes", "unitary_hs"):
             CHECKS[kind](cfg, r["seed"])
             print("property holds on this input now")
             return 0
